@@ -41,7 +41,7 @@ def scenario(exe, shim, root, seed, stats):
     backup = root + '.bak'
     shutil.copytree(a.root, backup, symlinks=True)
     cfg = 'ndisks=%d nparity=%d hashsize=%d splits=%d seed=%d' % (a.ndisks, a.nparity, hs, splits, seed)
-    triggers = ['all-missing', 'all-missing-plus-copy', 'all-rewritten', 'zero-size', 'zero-size-partial', 'short-parity', 'empty-parity', 'blocksize', 'hashsize', 'missing-disk', 'lock']
+    triggers = ['all-missing', 'all-missing-plus-copy', 'all-rewritten', 'zero-size', 'zero-size-partial', 'short-parity', 'ragged-parity', 'empty-parity', 'blocksize', 'hashsize', 'missing-disk', 'lock']
     rng2 = rng.fork()
     for trig in triggers:
         shutil.rmtree(a.root); shutil.copytree(backup, a.root, symlinks=True)
@@ -98,14 +98,19 @@ def scenario(exe, shim, root, seed, stats):
             stats['zero_partial_pending'] = stats.get('zero_partial_pending', 0) + (1 if pend else 0)
             open(a.path(dd, rel), 'wb').close()
             override = ['--force-zero', '--force-empty']; desc += ' %s/%s (%d of %d blocks still pending)' % (dd, rel, pend, len(recf[0]['blocks']))
-        elif trig in ('short-parity', 'empty-parity'):
+        elif trig in ('short-parity', 'empty-parity', 'ragged-parity'):
             lev = rng2.below(a.nparity)
             pfs = [p for p in a.parity_files(lev) if os.path.exists(p) and os.path.getsize(p) > a.block]
             if not pfs: continue
             pf = rng2.choice(pfs)
             with open(pf, 'r+b') as f:
-                f.truncate(0 if trig == 'empty-parity' else (os.path.getsize(pf) // a.block // 2) * a.block)
+                if trig == 'ragged-parity':
+                    # only the tail of the LAST block is lost: 1 .. blocksize-1 bytes
+                    f.truncate(os.path.getsize(pf) - 1 - rng2.below(a.block - 1))
+                else:
+                    f.truncate(0 if trig == 'empty-parity' else (os.path.getsize(pf) // a.block // 2) * a.block)
             override = ['-F', '--force-empty', '--force-zero']; desc += ' level %d file %s' % (lev, os.path.basename(pf))
+            if trig == 'ragged-parity': override = None      # a parity file that is not a whole number of blocks is refused with or without -F
         elif trig == 'blocksize':
             a.write_conf(blocksize=a.block * 2); desc += ' (config says %d)' % (a.block * 2)
         elif trig == 'hashsize':
@@ -158,7 +163,7 @@ def scenario(exe, shim, root, seed, stats):
         after = protected_digest(a)
         stats['refusals'] += 1
         if r.rc == 0:
-            tag = '[short-parity-v3]' if trig in ('short-parity', 'empty-parity') and (hs != 16 or splits > 1) else '[%s]' % trig
+            tag = '[short-parity-v3]' if trig in ('short-parity', 'empty-parity', 'ragged-parity') and (hs != 16 or splits > 1) else '[%s]' % trig
             out.append(('(%s) %s sync is NOT refused with trigger %s (exit 0)' % (cfg, tag, desc), r.out[-600:]))
             if tag == '[short-parity-v3]':
                 continue      # the recorded known finding: go on with the other triggers of this array
@@ -241,7 +246,7 @@ def main(tier, seed):
     chk.evaluations = stats['refusals'] + stats['triggers'].get('lock', 0)
     chk.distinct = chk.evaluations
     chk.extra['explanation'] = 'decision rules proved in Lean (empty-disk rule, smallest-parity rule, overrides); each trigger exercised on the binary with byte comparison of content and parity files; lock = kernel flock, exercised with a real stopped first command'
-    chk.rule = ('%d arrays x triggers {all files of a disk missing, all rewritten, zero-size file, parity truncated to half / to zero at each level, blocksize / hashsize mismatch, disk dropped from the configuration, lock held by a stopped sync}, alone or combined with ordinary pending changes: sync must exit non-zero with content and parity files byte-identical, and proceed with the override' % n)
+    chk.rule = ('%d arrays x triggers {all files of a disk missing, all rewritten, zero-size file, parity truncated to half / to zero / by less than a block at each level, blocksize / hashsize mismatch, disk dropped from the configuration, lock held by a stopped sync}, alone or combined with ordinary pending changes: sync must exit non-zero with content and parity files byte-identical, and proceed with the override' % n)
     chk.samples = [dict(stats)]
     chk.corr['E2E-LOCK'] = dict(stats)
     chk.finish()
